@@ -214,7 +214,12 @@ PowiOk(e) ==
        THEN LET p == ZJ(e.rp[2]) IN
             IF ZIsZero(p) \/ ~Fits(ZTruncDiv(ZPow2(2 * fd), p), e.D) THEN MErr(e)
             ELSE MOk(e) /\ ZEq(MRes(e), ZTruncDiv(ZPow2(2 * fd), p))
-       ELSE TRUE
+       \* no recorded powi(x, |n|) (n = i32::MIN has no positive counterpart): judged only for |x| = 1, where x^n = +-1 and
+       \* the two clauses together allow (|n| + 2) units in the last place
+       ELSE IF MOk(e) /\ ZEq(ZAbs(x), ZPow2(fs))
+            THEN LET v == IF n % 2 = 0 \/ ZSign(x) > 0 THEN ZPow2(fd) ELSE ZNeg(ZPow2(fd)) IN
+                 ZLe(ZAbs(ZSub(MRes(e), v)), ZAdd(IF n < -2147483647 THEN ZPow2(31) ELSE ZAbs(ZI(n)), ZI(2)))
+            ELSE TRUE
 
 \* C16   (domain: |x| <= 200 for sin/cos, |x| <= 100 and |tan x| <= 64 for tan)
 AbsLe(e, k) == ZLe(ZAbs(ZJ(e.x)), ZShl(ZI(k), FS(e)))
